@@ -36,7 +36,7 @@ b, e = '<!-- seed-matrix:begin -->', '<!-- seed-matrix:end -->'
 if b in d and e in d:
     missed = [s for s in rows if s.get('missed_by')]
     still = [s for s in rows if s.get('still_missed')]
-    t = [b, '', f'{len(rows)} confirmed changes; {len(rows) - len(missed)} were reported by the check of their own property as it stood when the change arrived, {len(missed) - len(still)} were missed at first and are reported after the strengthening described below, {len(still)} ({", ".join(x["id"] for x in still)}) are still missed - they arrived at the very end and are recorded as open gaps with what closing them takes.', '',
+    t = [b, '', f'{len(rows)} confirmed changes; {len(rows) - len(missed)} were reported by the check of their own property as it stood when the change arrived, {len(missed) - len(still)} were missed at first and are reported after the strengthening described below, {len(still)} ({", ".join(x["id"] for x in still)}) still missed - arrived at the very end, recorded as open gap(s) with what closing takes.', '',
          '| change | breaks (needs) | reported by | first clause |', '|---|---|---|---|']
     for s in rows:
         star = ' **(after strengthening)**' if s.get('missed_by') and not s.get('still_missed') else ''
